@@ -188,6 +188,15 @@ class C19(P.Property):
             probe("len_not_multiple_of_chunk")
         if chunk > n:
             probe("chunk_gt_len")
+        by = g.get("bystander")
+        b = bmodel = None
+        bpath = os.path.join(D, "arr_7")  # a sibling whose name extends the main array's path the way a numbered shard would
+        if by:
+            probe("bystander_array")
+            b = cls.create(bpath, item_size=by["isz"], array_len=by["n"], item_num_in_one_file=by["chunk"])
+            bmodel = [b"\x00" * by["isz"]] * by["n"]
+            b[0] = b"\x01"
+            bmodel[0] = pad(b"\x01", by["isz"])
         if g.get("init") is None:
             a = cls.create(path, item_size=isz, array_len=n, item_num_in_one_file=chunk)
             model = [b"\x00" * isz] * n
@@ -201,14 +210,8 @@ class C19(P.Property):
         since_reopen = 0  # operations since the last (re)open
         nfiles = math.ceil(n / chunk)
         allowed = {"arr_meta"} | {f"arr_{k}" for k in range(nfiles)}
-        by = g.get("bystander")
-        b = bmodel = None
-        bpath = os.path.join(D, "other")
         if by:
-            probe("bystander_array")
-            b = cls.create(bpath, item_size=by["isz"], array_len=by["n"], item_num_in_one_file=by["chunk"])
-            bmodel = [b"\x00" * by["isz"]] * by["n"]
-            allowed |= {"other_meta"} | {f"other_{k}" for k in range(math.ceil(by["n"] / by["chunk"]))}
+            allowed |= {"arr_7_meta"} | {f"arr_7_{k}" for k in range(math.ceil(by["n"] / by["chunk"]))}
 
         def by_check(si):
             got = outcome(lambda: b[:])
@@ -253,7 +256,11 @@ class C19(P.Property):
                         bmodel = [b"\x00" * by["isz"]] * by["n"]
                     elif bd == "reopen":
                         b.close()
-                        b = cls.open(bpath)
+                        o = outcome(lambda: cls.open(bpath))
+                        if o[0] != "ok":
+                            viol.append(V("C19.reopen", "UNUSABLE", f"step {si}: the second array can no longer be opened: {o} (arrays interfere)", step=si))
+                            break
+                        b = o[1]
                     obs.append(("by", bd))
                     if not by_check(si):
                         break
@@ -528,6 +535,14 @@ class C19(P.Property):
                 files_ok(nst)
             if b is not None and not viol:
                 by_check(len(plan["steps"]))
+            if b is not None and not viol:
+                b.close()
+                o = outcome(lambda: cls.open(bpath))
+                if o[0] != "ok":
+                    viol.append(V("C19.reopen", "UNUSABLE", f"the second array can no longer be opened at the end: {o} (arrays interfere)", step=len(plan["steps"])))
+                else:
+                    b = o[1]
+                    by_check(len(plan["steps"]))
         finally:
             try:
                 a.close()
